@@ -844,6 +844,22 @@ func (p *partition) becomeLeader(epoch uint64) error {
 	}
 	rep.updateLatestOffset(p.log.NewestOffset())
 
+	// Re-evaluate the high watermark before serving anything. It is only
+	// checkpointed periodically and on close, so after a restart or a resume
+	// it can be behind messages that were already committed and acknowledged.
+	// A leader that is the only member of the ISR has no follower whose
+	// progress would ever trigger a commit check, so its HW would stay behind
+	// until the next message is published.
+	if len(p.isr) >= p.minISR {
+		minLatest := rep.getLatestOffset()
+		for _, r := range p.isr {
+			if offset := r.getLatestOffset(); offset < minLatest {
+				minLatest = offset
+			}
+		}
+		p.log.SetHighWatermark(minLatest)
+	}
+
 	// Start message processing loop.
 	recvChan := make(chan *nats.Msg, recvChannelSize)
 	p.stopLeader = make(chan struct{})
